@@ -279,20 +279,20 @@ Fixpoint repeat_spec (n : nat) (k : Z) (s : St) : option (xres St) :=
   | S n => if k <=? 0 then Some (XLeave s) else after_body (body s) (repeat_spec n (k - 1))
   end.
 
-Inductive rpc : Type := RCond | RBody | RLeave | RRet | RErr | RDiv.
+Inductive rpc : Type := RpCond | RpBody | RpLeave | RpRet | RpErr | RpDiv.
 
 Definition r_step (c : rpc * Z * St) : rpc * Z * St :=
   let '(p, m, s) := c in
   match p with
-  | RCond => if negb (m =? 0) then (RBody, m, s) else (RLeave, m, s)
-  | RBody =>
+  | RpCond => if negb (m =? 0) then (RpBody, m, s) else (RpLeave, m, s)
+  | RpBody =>
       let m' := sub64 m 1 in
       match body s with
-      | OVal BBreak s1 => (RLeave, m', s1)
-      | OVal BRet s1 => (RRet, m', s1)
-      | OVal _ s1 => (RCond, m', s1)
-      | OErr s1 => (RErr, m', s1)
-      | ODiv => (RDiv, m', s)
+      | OVal BBreak s1 => (RpLeave, m', s1)
+      | OVal BRet s1 => (RpRet, m', s1)
+      | OVal _ s1 => (RpCond, m', s1)
+      | OErr s1 => (RpErr, m', s1)
+      | ODiv => (RpDiv, m', s)
       end
   | _ => c
   end.
@@ -302,10 +302,10 @@ Fixpoint r_steps (k : nat) (c : rpc * Z * St) : rpc * Z * St :=
 
 Definition r_final (r : xres St) (c : rpc * Z * St) : Prop :=
   match r with
-  | XLeave s => fst (fst c) = RLeave /\ snd c = s
-  | XRet s => fst (fst c) = RRet /\ snd c = s
-  | XErr s => fst (fst c) = RErr /\ snd c = s
-  | XDiv => fst (fst c) = RDiv
+  | XLeave s => fst (fst c) = RpLeave /\ snd c = s
+  | XRet s => fst (fst c) = RpRet /\ snd c = s
+  | XErr s => fst (fst c) = RpErr /\ snd c = s
+  | XDiv => fst (fst c) = RpDiv
   end.
 
 Lemma r_steps_add : forall a b c, r_steps (a + b) c = r_steps b (r_steps a c).
@@ -324,7 +324,7 @@ Qed.
 
 Theorem repeat_lowering_correct : forall n k s r,
   0 <= k <= max64 ->
-  repeat_spec n k s = Some r -> exists j, r_final r (r_steps j (RCond, k mod 2^64, s)).
+  repeat_spec n k s = Some r -> exists j, r_final r (r_steps j (RpCond, k mod 2^64, s)).
 Proof.
   induction n as [|n IH]; intros k s r Hk H; [discriminate H|].
   cbn [repeat_spec] in H. unfold max64 in Hk.
